@@ -86,11 +86,18 @@ def _vec(rng, fl, n=3, lo=0.0, hi=5.0):
     return v
 
 
+_SPECIAL_COMPLEX = [1.5j, 2j, -2j, complex(0.0, 0.25), complex(-0.0, 1.0), complex(1.5, 0.0), complex(1.5, -0.0), complex(2, 1), complex(-1.5, -0.5),
+                    complex(0.0, 1e-300), complex(1e22, 1e-7), complex(0.0, 0.0)]
+
+
 def _index(rng, fl):
     v = float(rng.uniform(1.3, 1.8))
     r = rng.random()
     if r < 0.3:
         c = complex(v, float(rng.uniform(0.001, 0.2)))
+        if rng.random() < 0.35:
+            # complex numbers whose text form is special: a zero (or negative-zero) real or imaginary part, integral parts, negative parts
+            c = _SPECIAL_COMPLEX[int(rng.integers(0, len(_SPECIAL_COMPLEX)))]
         return np.complex128(c) if fl in ("numpy", "array") else c
     return _num(rng, fl if fl != "extreme" else "python", 1.3, 1.8)
 
@@ -163,7 +170,8 @@ def _make(what, rng, fl):
         mk = [lambda: np.float32(rng.uniform(1.2, 1.9)), lambda: np.float64(rng.uniform(1.2, 1.9)), lambda: np.int64(rng.integers(2, 5)),
               lambda: np.int32(rng.integers(2, 5)), lambda: float(rng.uniform(1.2, 1.9)), lambda: int(rng.integers(2, 5)),
               lambda: complex(rng.uniform(1.2, 1.9), rng.uniform(0.01, 0.2)), lambda: np.complex128(complex(rng.uniform(1.2, 1.9), rng.uniform(0.01, 0.2))),
-              lambda: np.complex64(complex(1.5, 0.25)), lambda: np.float16(1.5), lambda: np.uint8(3)]
+              lambda: np.complex64(complex(1.5, 0.25)), lambda: _SPECIAL_COMPLEX[int(rng.integers(0, len(_SPECIAL_COMPLEX)))],
+              lambda: np.complex128(_SPECIAL_COMPLEX[int(rng.integers(0, len(_SPECIAL_COMPLEX)))]), lambda: np.complex64(1.5j), lambda: np.float16(1.5), lambda: np.uint8(3)]
         v = mk[int(rng.integers(0, len(mk)))]()
         shape = int(rng.integers(0, 4))
         if shape == 0:
